@@ -164,7 +164,7 @@ Theorem C13_validate_accept_has_signature : forall T zq x64 virt inst ops,
   validate T zq x64 virt inst ops = E_Ok ->
   exists iflags avx sidx scnt st rest,
     nth (N.to_nat (vi_id inst)) (vt_inst T) (0, 0, 0, 0) = (iflags, avx, sidx, scnt) /\
-    xlat_all T x64 virt avx ops {| xs_sigs := []; xs_flags := 0; xs_regs := 0; xs_mem := None |} = inr (st, rest) /\
+    xlat_all T x64 virt avx ops init_xstate = inr (st, rest) /\
     forallb is_none rest = true /\
     (scnt = 0 \/ exists s, In s (inst_sigs T sidx scnt) /\ test (is_mode s) (mode_bit x64) = true /\
                             match_sig T zq (mode_bit x64) (xs_sigs st) s = Some false).
@@ -226,3 +226,85 @@ Theorem C13_signature_records_have_db_origin : forall iid iflags avx sidx scnt, 
   pair_in (iid, N.of_nat j) x86_records_without_origin = true \/ sig_origin x86_vtables x86_db_rows iid s = true.
 Proof. exact (records_origin x86_vtables x86_db_rows x86_records_without_origin x86_records_have_origin). Qed.
 Print Assumptions C13_signature_records_have_db_origin.
+
+(* ---- the emitter-level validation hook across CodeHolder switches: whatever sequence of attach / detach events an emitter went through,
+   what it does with validation on (or off) is what a fresh emitter attached to the CURRENT holder does - in particular the validator is the
+   one of the current mode (the implementation is tied by H commands: one Assembler / Builder object taken through 32-/64-bit holders) *)
+Theorem C13_emitter_history_irrelevant : forall (S B : Type) T (encode : bool -> S -> vinst -> list operand -> S * (N * B)) fail von h m s inst ops,
+  emit_with_history T encode fail von (h ++ [EvAttach m]) s inst ops = emit_with_history T encode fail von [EvAttach m] s inst ops.
+Proof. exact emit_history_irrelevant. Qed.
+Print Assumptions C13_emitter_history_irrelevant.
+
+(* ---- converse direction at the level of single operand kinds: for every instruction, every signature record it uses, every operand of the record and every
+   operand-kind bit that operand accepts: the bit is a systematic AsmJit addition (kMemUnspecified; kRegGpbHi beside kRegGpbLo), or it is on the vendored exception
+   list, or some database row of the instruction - admitted by this very record and sharing a mode with it - names this kind at this position.
+   A record operand widened by one kind (e.g. ymm added to an xmm operand) fails here. *)
+Theorem C13_signature_kinds_have_db_origin : forall iid iflags avx sidx scnt, 1 <= iid < vt_count x86_vtables ->
+  nth (N.to_nat iid) (vt_inst x86_vtables) (0, 0, 0, 0) = (iflags, avx, sidx, scnt) ->
+  forall j s, nth_error (inst_sigs x86_vtables sidx scnt) j = Some s ->
+  forall q ref, nth_error (sig_refs x86_vtables s) q = Some ref ->
+  forall p, p < 48 -> N.testbit (fst ref) p = true -> N.testbit OF_OpMask p = true ->
+  N.testbit (named_kinds (admitted_rows (filter (fun row => dr_inst row =? iid) x86_db_rows) (is_mode s) (sig_refs x86_vtables s)) q) p = true \/
+  systematic_kind (fst ref) (N.shiftl 1 p) = true \/ quad_in (iid, N.of_nat j, N.of_nat q, N.shiftl 1 p) x86_kinds_without_origin = true.
+Proof. exact (kinds_origin x86_vtables x86_db_rows x86_kinds_without_origin x86_kinds_have_origin). Qed.
+Print Assumptions C13_signature_kinds_have_db_origin.
+
+(* ---- decorations: every (instruction, decoration) pair the database grants (lock, xacquire/xrelease, rep/repne, {k} {z} {er} {sae}, broadcast element size;
+   1 888 pairs, the 38 known-absent AVX10.2 ones are vendored separately) has, in the current tables, the InstFlags / Avx512Flags bits validate() demands *)
+Theorem C13_db_decorations_present : forall dc, In dc x86_db_decorations -> decor_present x86_vtables dc = true.
+Proof. exact (forallb_In _ (decor_present x86_vtables) x86_db_decorations x86_db_decorations_present). Qed.
+Print Assumptions C13_db_decorations_present.
+
+(* ---- row-level acceptance beyond the signature stage (ALL operand values, ALL option words): for a database row contained in the tables, an instruction
+   word with that id whose operands translate without error, leave no gap and fit the row kind by kind is ACCEPTED by validate as soon as the remaining
+   stages pass - lock/rep prefixes, the mode rules (r64 in 32-bit mode, AH..DH with REX), {evex}, {z}{er}{sae} and the {k}/rep extra register *)
+Theorem C13_db_row_validates : forall row, In row x86_db_rows ->
+  forall zq x64 virt inst ops iflags avx sidx scnt st rest,
+  vi_id inst = dr_inst row ->
+  nth (N.to_nat (dr_inst row)) (vt_inst x86_vtables) (0, 0, 0, 0) = (iflags, avx, sidx, scnt) ->
+  test (dr_mode row) (mode_bit x64) = true ->
+  xlat_all x86_vtables x64 virt avx ops init_xstate = inr (st, rest) ->
+  forallb is_none rest = true ->
+  fits_all (explicit_ops (dr_ops row)) (xs_sigs st) = true ->
+  lock_stage (vi_options inst) iflags (first_is_mem ops) = E_Ok ->
+  rep_stage (vi_options inst) iflags = E_Ok ->
+  mode_stage x64 (vi_options inst) st = E_Ok ->
+  evex_stage (vi_options inst) iflags = E_Ok ->
+  avx_stage (vi_options inst) iflags avx (match xs_mem st with Some _ => true | None => false end) (first_is_mem ops) ops = E_Ok ->
+  extra_stage inst iflags avx st = E_Ok ->
+  validate x86_vtables zq x64 virt inst ops = E_Ok.
+Proof.
+  exact (fun row Hin zq x64 virt inst ops iflags avx sidx scnt st rest =>
+    db_row_validates x86_vtables zq x64 virt row inst ops iflags avx sidx scnt st rest x86_sigs_wf
+      (forallb_In _ (row_present x86_vtables) x86_db_rows x86_db_rows_present row Hin)).
+Qed.
+Print Assumptions C13_db_row_validates.
+
+(* the undecorated case: no option bits, no extra register - only the mode rule remains as a premise *)
+Theorem C13_db_row_validates_plain : forall row, In row x86_db_rows ->
+  forall zq x64 virt inst ops iflags avx sidx scnt st rest,
+  vi_id inst = dr_inst row -> vi_options inst = 0 -> vi_extra_type inst = 0 ->
+  nth (N.to_nat (dr_inst row)) (vt_inst x86_vtables) (0, 0, 0, 0) = (iflags, avx, sidx, scnt) ->
+  test (dr_mode row) (mode_bit x64) = true ->
+  xlat_all x86_vtables x64 virt avx ops init_xstate = inr (st, rest) ->
+  forallb is_none rest = true ->
+  fits_all (explicit_ops (dr_ops row)) (xs_sigs st) = true ->
+  mode_stage x64 0 st = E_Ok ->
+  validate x86_vtables zq x64 virt inst ops = E_Ok.
+Proof. exact db_row_validates_plain_x86. Qed.
+Print Assumptions C13_db_row_validates_plain.
+
+(* the stages of the decorations follow from the flags C13_db_decorations_present guarantees *)
+Theorem C13_decoration_stages : 
+  (forall iflags, test iflags IF_Lock = true -> lock_stage OPT_Lock iflags true = E_Ok) /\
+  (forall iflags o, (o = OPT_Rep \/ o = OPT_Repne) -> test iflags IF_Rep = true -> rep_stage o iflags = E_Ok) /\
+  (forall inst iflags avx st, test (vi_options inst) kRepAny = false -> test iflags IF_Evex = true -> test avx AF_K = true ->
+     vi_extra_type inst = RT_Mask -> 1 <= vi_extra_id inst <= 7 -> extra_stage inst iflags avx st = E_Ok) /\
+  (forall options iflags avx has_mem op0m ops, test iflags IF_Evex = true ->
+     (test options OPT_ZMask = true -> test avx AF_Z = true /\ op0m = false) ->
+     (test options (N.lor OPT_SAE OPT_ER) = true ->
+        has_mem = false /\ (test options OPT_ER = true -> test avx AF_ER = true) /\ (test options OPT_ER = false -> test avx AF_SAE = true) /\
+        (test avx (N.lor AF_B16 (N.lor AF_B32 AF_B64)) = true -> is_zmm_or_m512 (nth 0 ops ONone) || is_zmm_or_m512 (nth 1 ops ONone) = true)) ->
+     avx_stage options iflags avx has_mem op0m ops = E_Ok).
+Proof. exact (conj lock_stage_lock (conj rep_stage_rep (conj extra_stage_k avx_stage_ok))). Qed.
+Print Assumptions C13_decoration_stages.
